@@ -276,6 +276,95 @@ example : channelClass ⟨.str "Scan", none, none, none, .plain []⟩ = .error "
 example : channelClass ⟨.absent, none, none, none, .plain []⟩ = .error "IndexError" := by decide +kernel
 
 
+/-! ## Calibration of a force channel and of its slices (`from_field` → `Slice.calibration`) -/
+
+/-- The items `from_field` collects for a channel are exactly the calibration groups that hold the channel with a time
+    field, each carrying that time … -/
+theorem cal_from_field_mem (groups : List CalGroup) (ch : String) (x : CalItem) :
+    x ∈ calFromField groups ch ↔ ∃ g, groups[x.id]? = some g ∧ g.channels.lookup ch = some (some x.time) := by
+  unfold calFromField
+  rw [List.mem_filterMap]
+  constructor
+  · rintro ⟨⟨g, i⟩, hm, hf⟩
+    have hg := List.mem_zipIdx_iff_getElem?.mp hm
+    simp only at hf
+    split at hf
+    · rename_i t ht
+      simp only [Option.some.injEq] at hf
+      subst hf
+      exact ⟨g, hg, ht⟩
+    · cases hf
+  · rintro ⟨g, hg, hl⟩
+    refine ⟨(g, x.id), List.mem_zipIdx_iff_getElem?.mpr hg, ?_⟩
+    simp only [hl]
+
+/-- … in the order of the groups. -/
+theorem cal_from_field_order (groups : List CalGroup) (ch : String) :
+    (calFromField groups ch).Pairwise (fun x y => x.id < y.id) := by
+  unfold calFromField
+  refine (filterMap_zipIdx_ids _ ?_ groups 0).2
+  intro g i x h
+  simp only at h
+  split at h
+  · simp only [Option.some.injEq] at h; rw [← h]
+  · cases h
+
+example : (calFromField [⟨[("Force 1x", some 5), ("Force 2x", none)]⟩, ⟨[]⟩, ⟨[("Force 1x", none)]⟩, ⟨[("Force 1x", some 3)]⟩] "Force 1x")
+    = [⟨5, 0⟩, ⟨3, 3⟩] := by decide +kernel
+
+/-- A force channel sliced to `[a, b)` that keeps at least one sample lists the calibration items that apply to the time
+    range of what it kept: from the first kept timestamp to one step (the sample period; 1 ns for a time series) after the
+    last kept one — and nothing when the file has no item for the channel.  (With `filter_calibration_spec`: the last
+    item applied at or before the first kept sample, then those strictly inside.) -/
+theorem slice_calibration_spec (items : List CalItem) (s : C01.Src) (hs : ∀ t, s ≠ .tags t)
+    (hdt : ∀ c, s = .cont c → 0 < c.dt) (a b : Int) (x y : C01.Sample) (rest : List C01.Sample)
+    (hk : s.samples.filter (C01.inWin a b) = x :: rest) (hy : (x :: rest).getLast? = some y) :
+    sliceCalibration items (cropChannel s a b) =
+      if items = [] then [] else filterCalibration items x.1 (y.1 + stepOf s) := by
+  have hsm : (cropChannel s a b).samples = x :: rest := by rw [crop_is_slice s hdt, hk]
+  obtain ⟨hk1, hk2⟩ := crop_kind s a b hs
+  obtain ⟨h1, h2⟩ := src_range (cropChannel s a b) hk1 x y rest hsm hy
+  unfold sliceCalibration
+  by_cases hi : items = []
+  · simp [hi]
+  · rw [if_neg hi, if_neg (by simpa using hi)]
+    rw [← hk2, ← h1, ← h2]
+    split
+    · rename_i heq
+      rw [heq] at hsm; simp [C01.Src.samples] at hsm
+    · rfl
+
+/-- the same through the file's access path, whole channel and sliced -/
+theorem channel_calibration_spec (groups : List CalGroup) (ch : String) (s : C01.Src) (hs : ∀ t, s ≠ .tags t)
+    (hdt : ∀ c, s = .cont c → 0 < c.dt) (a b : Int) (x y : C01.Sample) (rest : List C01.Sample)
+    (hk : s.samples.filter (C01.inWin a b) = x :: rest) (hy : (x :: rest).getLast? = some y) :
+    channelCalibration groups ch s (some (a, b)) =
+      if calFromField groups ch = [] then [] else filterCalibration (calFromField groups ch) x.1 (y.1 + stepOf s) :=
+  slice_calibration_spec (calFromField groups ch) s hs hdt a b x y rest hk hy
+
+theorem channel_calibration_whole (groups : List CalGroup) (ch : String) (s : C01.Src) (hs : ∀ t, s ≠ .tags t)
+    (x y : C01.Sample) (rest : List C01.Sample) (hk : s.samples = x :: rest) (hy : (x :: rest).getLast? = some y) :
+    channelCalibration groups ch s none =
+      if calFromField groups ch = [] then [] else filterCalibration (calFromField groups ch) x.1 (y.1 + stepOf s) := by
+  obtain ⟨h1, h2⟩ := src_range s hs x y rest hk hy
+  unfold channelCalibration sliceCalibration
+  by_cases hi : calFromField groups ch = []
+  · simp [hi]
+  · rw [if_neg hi, if_neg (by simpa using hi)]
+    cases s with
+    | ts l =>
+      cases l with
+      | nil => simp [C01.Src.samples] at hk
+      | cons z zs => simp only [h1, h2]
+    | cont c => simp only [h1, h2]
+    | tags t => exact absurd rfl (hs t)
+
+/-- non-vacuity: a 10 ns channel 100…129 sliced to [105, 125) keeps 110 and 120; items at 5 (before), 115 (inside),
+    130 (= last + period: outside) -/
+example : ((C01.Src.cont ⟨100, 10, [5, 6, 7]⟩).samples.filter (C01.inWin 105 125)) = [(110, 6), (120, 7)] := by decide
+example : (channelCalibration [⟨[("Force 1x", some 5)]⟩, ⟨[("Force 1x", some 115)]⟩, ⟨[("Force 1x", some 130)]⟩] "Force 1x"
+    (.cont ⟨100, 10, [5, 6, 7]⟩) (some (105, 125))).map (·.id) = [0, 1] := by decide +kernel
+
 /-! ## Time-stamped metadata items -/
 
 theorem keepMeta_spec (st sp a b : Int) :
